@@ -23,6 +23,21 @@ CHECKS = {
              "not depend on the previous configuration of the process (2-run histories). What DuckDB stores/rounds/sums under the setting is outside.",
         note="Stubs: os.getenv/os.environ.get return the symbolic values; error-message formatting skipped. Trusted: CrossHair, transcription of the documented ranges.",
         ref="3 C30"),
+    "C26": dict(
+        technique="ast scan of every raise site + CrossHair symbolic execution of the real exception constructors",
+        text="All raise sites of coded VTL exceptions under src/vtlengine are found by an ast scan regenerated on each run (codes resolved by constant "
+             "propagation); each (site, code) pair is an obligation: code in the catalogue and every placeholder supplied. The real constructors are then "
+             "executed by CrossHair for every site with symbolic argument classes (including format metacharacters) and a symbolic output-dataset name. "
+             "Statically complete for the scanned sites; errors raised dynamically while running a corpus are outside (no parser).",
+        note="Trusted: the ast scanner, CrossHair. Argument values are drawn from small finite classes through symbolic indices.",
+        ref="3 C26"),
+    "C27": dict(
+        technique="CrossHair symbolic execution of the real to_vtl_json/load_datasets over symbolic SDMX dtype/role indices",
+        text="Every member of the installed pysdmx DataType and Role enumerations (symbolic indices) in Schema/DSD/Dataflow structures of 1 component "
+             "(complete) and 3 components (all role combinations, symbolic dtype at each position) goes through the real to_vtl_json and the real "
+             "load_datasets; the oracle is the role and type tables parsed from docs/data_structures.rst. Finite domain, 'Confirmed over all paths' required.",
+        note="Stub: jsonschema validation skipped while tracing (run un-stubbed in the concrete warm-up). pysdmx objects are built outside tracing. run_sdmx() end-to-end is outside (parser).",
+        ref="3 C27"),
 }
 
 NOT_APPLICABLE = {
